@@ -198,7 +198,9 @@ def check_one(item):
                     k = (func_short, rk, flag, rule[flag])
                     if site_res.get(k, "yes") == "yes":
                         site_res[k] = v
-                if is_stmt and flag != "with_namespace":
+                # the namespace decision of query builders is the subject of ns/decision (C11); every other statement
+                # (set operations, DDL) must not let the embedding query's decision through either
+                if is_stmt and (flag != "with_namespace" or qb not in ci.mro):
                     dep = depends_on_position(ex, passed)
                     k = (func_short, rk, flag)
                     if dep:
